@@ -22,13 +22,13 @@ PREDS = {f.__name__: f for f in (join_full_not_same_named, join_has_differently_
 def classify(case, backend, verdict, findings, prop):
     """finding id explaining this verdict for this property, or None"""
     kind = verdict[0]
-    bk = "polars" if backend == "polars_lazy" else backend
-    if bk == "pg":
-        bk = "sqlite"
+    bk = backend.split("/")[0]
+    bk = "polars" if bk == "polars_lazy" else bk
     for f in findings.get("findings", []):
         if prop not in f.get("properties", []):
             continue
-        if f.get("backend") != bk:
+        fb = f.get("backend")
+        if bk not in (fb if isinstance(fb, list) else [fb]):
             continue
         if kind == "known" and f["kind"] == "model" and f["id"] == verdict[1]:
             return f["id"]
